@@ -28,11 +28,16 @@ def systems_stage(chk, lib, replay_text=None):
             text, sysd = replay_text, None
         else:
             sysd = M.gen_system(rng, ncomp=rng.randint(1, 4), nq=rng.randint(2, 10), depth=rng.randint(1, 4), ode=rng.random() < 0.7)
+            if attempts % 4 == 0:
+                sysd = M.const_chain_system(rng)      # deep chains of computed constants
             try:
                 M.ground_truth(sysd)
             except M.Fragile:
                 stats['fragile_regenerated'] += 1; continue
-            text = M.to_cellml(sysd, rng)
+            # listing: as generated (dependencies first), reversed (every dependency after what needs it) or shuffled
+            r = rng.random()
+            text = M.to_cellml(sysd, rng, perm=M.Reversed() if r < 0.3 else (rng if r < 0.6 else None))
+            stats['reversed' if r < 0.3 else ('shuffled' if r < 0.6 else 'in_order')] = stats.get('reversed' if r < 0.3 else ('shuffled' if r < 0.6 else 'in_order'), 0) + 1
         stats['systems'] += 1
         wd = tempfile.mkdtemp(prefix='c03m-')
         try:
